@@ -44,7 +44,18 @@ class Extractor:
         except Undecided:
             return None
 
-    def resolve_free(self, name, sig):
+    def pick(self, hits, hint):
+        """several registry entries match (template instantiations with identical signatures): use the explicit
+        template arguments written at the call site, or the entry marked as the default instantiation"""
+        if len(hits) <= 1:
+            return hits
+        if hint:
+            sel = [h for h in hits if R[h[0] if isinstance(h, tuple) else h].get('targs') == hint]
+        else:
+            sel = [h for h in hits if R[h[0] if isinstance(h, tuple) else h].get('tdefault')]
+        return sel if len(sel) == 1 else hits
+
+    def resolve_free(self, name, sig, hint=None):
         cands = self.by_name.get(name, [])
         want = norm_sig(sig)
         hits = []
@@ -54,11 +65,12 @@ class Extractor:
             n = self.try_node(c)
             if n is not None and norm_sig(n['type']['qualType']) == want:
                 hits.append(c)
+        hits = self.pick(hits, hint)
         if len(hits) == 1:
             return hits[0]
         return None
 
-    def resolve_method(self, klass, name, nargs):
+    def resolve_method(self, klass, name, nargs, hint=None):
         hits = []
         for c in self.by_name.get(name, []):
             if R[c]['cls'] != klass:
@@ -69,6 +81,7 @@ class Extractor:
             np = len([p for p in n.get('inner', []) if p.get('kind') == 'ParmVarDecl'])
             if np == nargs:
                 hits.append((c, n['type']['qualType']))
+        hits = self.pick(hits, hint)
         if len(hits) == 1:
             return hits[0]
         return None
@@ -129,7 +142,45 @@ class Extractor:
             visit(r)
         return order, seen
 
-    def compose(self, roots, stop=(), stubs=None):
+    def havoc_contract(self, c, tr, node):
+        """weakest useful contract for a callee that is abstracted in a skeleton obligation: it may write anything
+        reachable through its non-const pointer parameters (editors: only buffer and components), returns anything;
+        the only promise is the type invariant of the string model (n <= STR_CAP, NUL-terminated)."""
+        from .cxx2c import parse_fn_params, pass_mode
+        sig = node['type']['qualType']
+        params, ret = parse_fn_params(sig)
+        pn = [p for p in node.get('inner', []) if p.get('kind') == 'ParmVarDecl']
+        targets, ens = [], []
+        is_const_method = bool(re.search(r'\)\s*const', re.sub(r'\[\[[^\]]*\]\]', '', sig)))
+        if R[c]['cls'] == 'agg' and not is_const_method:
+            editor = re.match(r'agg_(update_|append_|clear_|add_|delete_|replace_|set_scheme|set_protocol_as_file|copy_scheme|consume_|parse_path)', c)
+            if editor and not re.match(r'agg_(set_scheme|set_protocol_as_file|copy_scheme)', c):
+                targets += ['self->buffer', 'self->components']
+            else:
+                targets += ['__CPROVER_object_whole(self)']
+            ens.append('self->buffer.n <= STR_CAP && self->buffer.d[self->buffer.n] == 0')
+        elif R[c]['cls'] == 'url' and not is_const_method:
+            targets += ['__CPROVER_object_whole(self)']
+        for p, pt in zip(pn, params):
+            mode, ct = pass_mode(pt)
+            base = pt.strip()
+            if mode == 'ptr' and not base.startswith('const '):
+                targets.append('__CPROVER_object_whole(%s)' % p['name'])
+                if ct.klass == 'str':
+                    ens.append('%s->n <= STR_CAP && %s->d[%s->n] == 0' % (p['name'], p['name'], p['name']))
+        from .ctypes_map import map_type
+        try:
+            rct = map_type(ret) if ret else None
+        except Exception:
+            rct = None
+        if rct is not None and rct.klass == 'str':
+            ens.append('__CPROVER_return_value.n <= STR_CAP && __CPROVER_return_value.d[__CPROVER_return_value.n] == 0')
+        lines = ['__CPROVER_assigns(%s)' % ', '.join(targets)]
+        for e in ens or ['1']:
+            lines.append('__CPROVER_ensures(%s)' % e)
+        return lines
+
+    def compose(self, roots, stop=(), stubs=None, havoc=()):
         """C text: prototypes of everything, instance macros, lambdas, definitions. `stop` functions are emitted as
         bodyless prototypes (with their function contract if a spec exists) for --replace-call-with-contract."""
         order, seen = self.closure(roots, stop)
@@ -145,6 +196,8 @@ class Extractor:
                     tr.self_ctype = R[c].get('selft') or SELF_T[R[c]['cls']]
                 sig = tr.signature()
                 spec = self.spec_for(c).get('function', [])
+                if not spec and c in havoc:
+                    spec = self.havoc_contract(c, tr, n)
                 protos.append(sig + '\n' + '\n'.join(spec) + ';')
             else:
                 protos.append(self.done[c]['proto'])
